@@ -22,9 +22,10 @@ BOUNDS = (
     "{relative, absolute} spelling x {add A/A'/CNAME/TXT, replace A/CNAME, delete name, delete "
     "type A/CNAME, delete rdata, delete_exact rdata/type/name} + apex SOA add, update_serial "
     "+1 and +2^31-1) from 2 base zones, each run committed and with an exception injected "
-    "after every operation index (quick: one base per sequence, variants rotated per sequence "
-    "pair; thorough: both bases on all 6 variants, plus every length-3 sequence over a "
-    "26-operation alphabet). Seeded: random sequences of length <= 40 (quick ~1500, thorough "
+    "after one (quick) or every (thorough) operation index; length 1 on all 6 variants x both "
+    "bases x 8 end modes; length 2 in quick on one variant/base per pair (rotated), in "
+    "thorough on all 6 variants with the base alternating; thorough adds every length-3 "
+    "sequence over a 26-operation alphabet (variant rotated). Seeded: random sequences of length <= 40 (quick ~1500, thorough "
     "~40000) over 6 owner names + an out-of-zone name, 4 spellings (Name/str x relative/"
     "absolute), 17 rdatas of 10 types incl. RRSIG(covers), all argument forms (ttl+rdata, "
     "rdataset, rrset, name, type, type+covers, rdata), TTLs {0,1,30,300,3600,2^31-1}, serial "
@@ -588,11 +589,11 @@ def _exhaustive(R, zones, stats):
                 # rotate the variant and the base; both spellings are in the alphabet
                 todo = [(variants[i % 6], ("small", "apex")[(i // 6) % 2])]
             else:
-                todo = [(v, bid) for v in variants for bid in ("small", "apex")]
+                todo = [(v, ("small", "apex")[(i + vi) % 2]) for vi, v in enumerate(variants)]
             for (kind, rel), base_id in todo:
                 for mode in _modes_for(2, rng, not R.quick):
                     _run_one(R, zones, kind, rel, base_id, [a, b], mode, stats)
-        if R.deadline() or (R.quick and R.elapsed() > 25):
+        if R.deadline() or R.elapsed() > (25 if R.quick else 280):
             R.note(f"C10 exhaustive length-2 stopped early at {i}/{len(core) ** 2}")
             return
     if R.quick:
@@ -604,7 +605,7 @@ def _exhaustive(R, zones, stats):
         kind, rel = variants[j % 6]
         for mode in ({"m": "commit"}, {"m": "raise_after", "k": j % 4}, {"m": "check_raise", "k": j % 3}):
             _run_one(R, zones, kind, rel, "small", list(seq), mode, stats)
-        if j % 500 == 0 and (R.deadline() or R.elapsed() > 300):
+        if j % 500 == 0 and (R.deadline() or R.elapsed() > 350):
             R.note(f"C10 exhaustive length-3 stopped early at {j}/{len(mini) ** 3}")
             return
 
@@ -696,6 +697,7 @@ def _ended_and_readonly(R):
                             raise Injected()
                     except Injected:
                         pass
+            before = M.zone_fp(z)  # only the calls on the ended transaction are judged here
             for name, call in reads + writes + ends:
                 R.case("C10.ended_refuses", key=(kind, rel, how, name))
                 raised = None
@@ -954,7 +956,7 @@ def run(R):
     if R.quick:
         R.guard("C10.seeded", _seeded, R, zones, stats, 1500, 14.0)
     else:
-        R.guard("C10.seeded", _seeded, R, zones, stats, 40000, 240.0)
+        R.guard("C10.seeded", _seeded, R, zones, stats, 40000, 200.0)
     R.note(f"C10 sequences run: {stats['seq']}")
 
 
